@@ -664,13 +664,14 @@ fn check_log(c: &mut Case, evs: &[Ev], handles: &HashMap<usize, HInfo>, extra_ha
                     let opened = evs.iter().find(|o| o.ok && o.r as usize == id && matches!(o.func, "SFileOpenFileEx" | "SFileFindFirstFile"));
                     // a file handle whose open was still running when the close of its archive was called is a different
                     // situation (a race between the two calls) from a handle that was open long before the close
-                    let racing = by_archive && info.kind == K::File && opened.map(|o| o.t1 > closer.t0).unwrap_or(false);
+                    let racing = by_archive && info.kind != K::Arch && opened.map(|o| o.t1 > closer.t0).unwrap_or(false);
                     let mut wit = vec![**closer, e];
                     if let Some(o) = opened {
                         wit.insert(0, o);
                     }
                     if racing {
-                        viol(c, "close-invalidates|SFileCloseArchive|file-opened-while-archive-was-closing|handle-survives-the-close".into(), format!("file handle {id} was being opened on archive {} while SFileCloseArchive of that archive was running; after the close returned, {} on it still succeeds", closer.h, e.func), wit);
+                        let what = if info.kind == K::File { "file" } else { "search" };
+                        viol(c, format!("close-invalidates|SFileCloseArchive|{what}-opened-while-archive-was-closing|handle-survives-the-close"), format!("{what} handle {id} was being opened on archive {} while SFileCloseArchive of that archive was running; after the close returned, {} on it still succeeds", closer.h, e.func), wit);
                     } else {
                         viol(c, format!("invalid-handle-accepted|{}|{}|returned-success", e.func, label_after(info.kind, by_archive)), format!("{} on handle {id} succeeded although it was called after a successful close had returned", e.func), wit);
                     }
